@@ -449,7 +449,7 @@ class KademliaProtocol(DatagramProtocol):
             self.send_error(
                 peer,
                 ErrorDatagram(ERROR_TYPE, request_datagram.rpc_id, self.node_id, str(type(err)).encode(),
-                              str(err).encode())
+                              str(err)[:256].encode())
             )
         except Exception as err:
             log.warning("error raised handling %s request from %s:%i - %s(%s)",
@@ -458,7 +458,7 @@ class KademliaProtocol(DatagramProtocol):
             self.send_error(
                 peer,
                 ErrorDatagram(ERROR_TYPE, request_datagram.rpc_id, self.node_id, str(type(err)).encode(),
-                              str(err).encode())
+                              str(err)[:256].encode())
             )
 
     def handle_response_datagram(self, address: typing.Tuple[str, int], response_datagram: ResponseDatagram):
